@@ -55,6 +55,10 @@ func (e *Env) call(x *ast.CallExpr) Value {
 				rv := e.methodRecv(f, sel)
 				recv = &rv
 				recvExpr = f.X
+				if rv.K == VU && isReflectType(sel.Recv()) {
+					// a method call on a nil reflect.Type (reflect.TypeOf(nil)) is a nil dereference
+					e.panicCheck(Ne(rv.T, App("nilU", SU)), "niltype", "method call on a nil reflect.Type", f.Pos())
+				}
 				if rv.Dyn != nil && types.IsInterface(sel.Recv()) {
 					// statically known concrete receiver: call the concrete method
 					ms := types.NewMethodSet(rv.Dyn.Typ)
